@@ -373,6 +373,7 @@ func checkC15(c *Ctx, r *Report) {
 	flattenedKeysRule(c, r)
 
 	rootTestRule(c, r)
+	emptyPathRule(c, r)
 
 	bothPartsRule(c, r)
 
@@ -1894,5 +1895,112 @@ func indexTextRule(c *Ctx, r *Report) {
 	}
 	if n == 0 {
 		r.Bad("R15g", name, "renders its integer", c.Pos(str.Pos()), "idxField.String() returns member "+viaField+", which nothing assigns")
+	}
+}
+
+// emptyPathRule (R15m): "the path is empty" does not mean "at the root" — a top-level setting named "" has the empty
+// path too, and what lies below it is below it (".x", not "x"). The functions that produce paths (context.path,
+// context.pathOf, the FlattenedKeys family and the string helpers they call) therefore never decide on a path *text*
+// being empty: neither the result of path/pathOf/Path/PathOf nor a parameter that receives one is compared with "".
+// The root is recognised by its context (R15j).
+func emptyPathRule(c *Ctx, r *Report) {
+	r.Rule("R15m", "no function that produces paths compares a path text with the empty string (the root is told by its context, not by an empty path)", 4)
+	ctxT := c.Named("", "context")
+	scope := map[*ssa.Function]bool{}
+	var order []*ssa.Function
+	add := func(fn *ssa.Function) {
+		if fn != nil && !scope[fn] && len(fn.Blocks) > 0 {
+			scope[fn] = true
+			order = append(order, fn)
+		}
+	}
+	for _, n := range []string{"path", "pathOf"} {
+		if fn := c.MethodImpl(types.NewPointer(ctxT), n); fn != nil {
+			add(declared(c, fn))
+		}
+	}
+	for _, n := range []string{"FlattenedKeys", "flattenedKeys", "Path", "PathOf"} {
+		add(c.TryMethod("", "Config", n))
+	}
+	add(c.TryFunc("", "appendFlattenedKeys"))
+	returnsText := func(fn *ssa.Function) bool {
+		res := fn.Signature.Results()
+		for i := 0; i < res.Len(); i++ {
+			t := typeStr(res.At(i).Type())
+			if t == "string" || t == "[]string" {
+				return true
+			}
+		}
+		return false
+	}
+	for i := 0; i < len(order); i++ {
+		for _, ci := range CallsIn(order[i], true) {
+			if g := ci.Common().StaticCallee(); g != nil && g.Pkg == c.SSA[""] && returnsText(g) && !strings.HasPrefix(g.Name(), "raise") {
+				add(g)
+			}
+		}
+	}
+	isPathCall := func(v ssa.Value) bool {
+		call, ok := v.(*ssa.Call)
+		if !ok {
+			return false
+		}
+		switch calledName(call) {
+		case "path", "pathOf", "Path", "PathOf":
+			g := call.Call.StaticCallee()
+			return g != nil && g.Pkg == c.SSA[""]
+		}
+		return false
+	}
+	// parameters that receive a path at some call site inside the scope (to a fixpoint)
+	pathParam := map[*ssa.Parameter]bool{}
+	var isPath func(v ssa.Value) bool
+	isPath = func(v ssa.Value) bool {
+		for _, s := range append(Sources(v), v) {
+			if isPathCall(s) {
+				return true
+			}
+			if p, ok := s.(*ssa.Parameter); ok && pathParam[p] {
+				return true
+			}
+			if b, ok := s.(*ssa.BinOp); ok && b.Op == token.ADD && isString(b.Type()) {
+				if isPath(b.X) || isPath(b.Y) {
+					return true
+				}
+			}
+		}
+		return false
+	}
+	for changed := true; changed; {
+		changed = false
+		for _, fn := range order {
+			for _, ci := range CallsIn(fn, true) {
+				g := ci.Common().StaticCallee()
+				if g == nil || !scope[g] {
+					continue
+				}
+				for i, a := range ci.Common().Args {
+					if i < len(g.Params) && isString(g.Params[i].Type()) && !pathParam[g.Params[i]] && isPath(a) {
+						pathParam[g.Params[i]] = true
+						changed = true
+					}
+				}
+			}
+		}
+	}
+	for _, fn := range order {
+		bad, pos := "", fn.Pos()
+		Instrs(fn, true, func(in ssa.Instruction) {
+			b, ok := in.(*ssa.BinOp)
+			if !ok || (b.Op != token.EQL && b.Op != token.NEQ) {
+				return
+			}
+			for _, pr := range [][2]ssa.Value{{b.X, b.Y}, {b.Y, b.X}} {
+				if k, isK := pr[1].(*ssa.Const); isK && k.Value != nil && k.Value.ExactString() == `""` && isString(pr[0].Type()) && isPath(pr[0]) {
+					bad, pos = pr[0].Name(), b.Pos()
+				}
+			}
+		})
+		r.Check(bad == "", "R15m", c.FnName(fn), "no decision on an empty path text", c.Pos(pos), "no path text is compared with \"\"", "a path text ("+bad+") is compared with the empty string to tell the root: a top-level setting named \"\" has the empty path as well, so everything below it loses its leading separator (FlattenedKeys and PathOf report .x as x — the name of another setting; diff compares the wrong keys)")
 	}
 }
